@@ -2,11 +2,15 @@
 from __future__ import annotations
 
 from .. import lossrec
-from . import _func
+from . import _func, _loss
 
 MC = """SPECIFICATION Spec
 INVARIANT Emit
 """
+
+
+def prepare(structs, sd):
+    return [lossrec.expand(s, sd) if s["kind"] == "loss_struct" else lossrec.expand_fr(s, sd) for s in structs]
 
 
 def sig(r):
@@ -17,13 +21,15 @@ def sig(r):
 
 def run(tier, seed):
     return _func.run(
-        "C11", tier, seed, emitters=[("MC_FwdRev", MC, "MC_FwdRev")], extras=lambda s: [],
-        prepare=lambda structs, sd: [lossrec.expand_fr(s, sd) for s in structs], sig=sig,
+        "C11", tier, seed, emitters=[("MC_FwdRev", MC, "MC_FwdRev"), ("MC_Loss", _loss.MC % ("C11L", 8), "MC_Loss_C11L")], extras=lambda s: [],
+        prepare=prepare, sig=sig,
         rule="TLC enumerates {laplacian, divergence, vector laplacian, advection, mass conservation, Burgers, Fisher-KPP} x dimensions 1..3 "
              "(time first) x embedding size 1..2 x outputs x batch per axis 1..3 (including batches smaller than the dimension) x feature "
              "degree; a polynomial SPINN (real create_SPINN with polynomial feature layers) and its expanded polynomial PINN twin are "
              "evaluated by the forward-mode grid implementation and by the reverse-mode pointwise implementation; BOTH must equal, at "
              "grid index (i1..id) resp. point (x_i1..x_id), the value the specification computes from the expansion (SpinnPoly.tla + "
-             "Operators / Equations); distinct = distinct structure",
+             "Operators / Equations); + the initial-condition, normalisation, Dirichlet and Neumann terms of LossPDEStatio / LossPDENonStatio on a "
+             "polynomial SPINN: jinns receives the batch columns, LossSemantics.tla evaluates the same term pointwise on the tensor grid they "
+             "span (time first); distinct = distinct structure",
         assumptions=["polynomial feature maps (exact under x64)", "loss-term branches (boundary / initial condition / normalisation with a "
                      "SPINN) are covered by their own records when present in this revision"])
